@@ -579,6 +579,46 @@ def check_swapped_contexts(ctx, prog, tag):
         ctx.floor("C11.R9 context swaps" + tag, n, 1)
 
 
+def check_charge_target(ctx, prog, tag):
+    # R11: what a charge adds is what the limit test looks at.  Every field of the context that `incr_depth` writes
+    # is read by `Context::depth()`, the quantity `check_depth` compares with the limit - in every feature
+    # configuration (the accounting functions exist as cfg-gated twins; seed C11-8 merged two of them under the
+    # wrong condition: with `macros` alone the charge went into a field the test no longer read).
+    if prog.has_fn(INCR) and prog.has_fn(DEPTH):
+        CTXT = "minijinja::vm::context::Context"
+        wr = set()
+        inc = prog.fn(INCR)
+        for d_ in flow.stores(inc):
+            nm_ = flow._proj_names(d_.place)
+            if nm_:
+                wr.add(nm_[0])
+        for bb_, i_, st_ in inc.all_stmts():
+            if st_["k"] == "assign" and "p" in st_["place"]:
+                nm_ = flow._proj_names(st_["place"])
+                if nm_:
+                    wr.add(nm_[0])
+        dp = prog.fn(DEPTH)
+        rd = set()
+        for bb_, i_, st_ in dp.all_stmts():
+            for o_ in errflow._rv_operands(st_.get("rv", {})) if st_["k"] == "assign" else []:
+                p_ = op_place(o_)
+                if p_:
+                    rd |= set(flow._proj_names(p_))
+            rv_ = st_.get("rv", {})
+            if rv_.get("k") in ("ref", "discr") and rv_.get("place"):
+                rd |= set(flow._proj_names(rv_["place"]))
+        for c_ in dp.calls():
+            for a_ in c_.args:
+                p_ = op_place(a_)
+                if p_:
+                    rd |= set(flow._proj_names(p_))
+        missing = sorted(wr - rd)
+        ctx.ob("C11.R11.charge-goes-where-the-limit-test-looks", tag + "incr_depth~depth", bool(wr) and not missing,
+               "incr_depth adds the charge to Context.%s, which Context::depth() (the quantity check_depth compares with "
+               "the limit) does not read in this configuration: macro / block recursion is charged but never cut off"
+               % missing, dp.loc)
+
+
 def run(ctx):
     ctx.explain("C11: must-pass-through rule (a propagated depth charge dominates every re-entry into the "
                 "interpreter), structure of push_frame/incr_depth/check_depth, reviewed cost constants and the "
@@ -589,11 +629,19 @@ def run(ctx):
     ctx.assume("no analysed configuration enables `stacker`")
     ctx.assume("native recursion over data (Value Display/Drop/cmp on deeply nested values) is outside this property "
                "(inventoried only)")
-    for cname in ctx.configs():
+    cfgs = list(ctx.configs())
+    if not ctx.is_borrowed:
+        # macros without multi_template: the cfg-gated twins of the depth accounting differ only here
+        if ctx.tier != "quick":
+            cfgs.append("MAC")
+        else:
+            check_charge_target(ctx, ctx.program("MAC"), "[MAC]")
+    for cname in cfgs:
         prog = ctx.program(cname)
         tag = "" if cname == "MAX" else "[%s]" % cname
         if not prog.has_fn(EI):
             ctx.need(False, "C11: eval_impl missing in %s" % cname)
+        check_charge_target(ctx, prog, tag)
         # R1
         sites = []
         for f in prog.fns.values():
@@ -602,7 +650,7 @@ def run(ctx):
             for c in f.calls():
                 if c.name in CHAIN:
                     sites.append((f, c))
-        ctx.floor("C11.R1 re-entry sites" + tag, len(sites), 1 if cname == "MIN" else 4)
+        ctx.floor("C11.R1 re-entry sites" + tag, len(sites), 1 if cname == "MIN" else (2 if cname == "MAC" else 4))
         charged_edges = set()
         for f, c in sites:
             inst = "%s%s|%s" % (tag, f.path, c.name.split("::")[-1])
